@@ -165,6 +165,10 @@ Qed.
 Lemma inj_bounds (z lo hi : Z) : (lo <= z <= hi)%Z -> inject_Z lo <= inject_Z z /\ inject_Z z <= inject_Z hi.
 Proof. intros [A B]. split; rewrite <- Zle_Qle; assumption. Qed.
 
+(* same with the bounds as literals, the form lra reads as numerals *)
+Lemma inj_bounds_c (z lo hi : Z) : (lo <= z <= hi)%Z -> (lo # 1) <= inject_Z z /\ inject_Z z <= (hi # 1).
+Proof. exact (inj_bounds z lo hi). Qed.
+
 (* everything the later steps need to know about one axis of to_dms when |dd| <= B degrees *)
 Lemma axis_facts dd (B : Z) : Qabs dd <= inject_Z B ->
   exists sec,
@@ -185,17 +189,16 @@ Proof.
   set (t := dms_of_x (Qabs dd * 3600) (Qle_bool 0 dd)) in *.
   pose proof (s5_range sec S0 S1) as KR. rewrite <- ES in KR.
   destruct (rhu5_spec sec) as [RL RU]. rewrite <- ES in RL, RU.
-  destruct (inj_bounds _ _ _ M) as [M1 M2]. unfold inject_Z at 1 3 in M1, M2.
+  destruct (inj_bounds_c (mn t) 0 59 ltac:(lia)) as [M1 M2].
   assert (D1 : 0 <= inject_Z (dg t)).
   { change 0 with (inject_Z 0). rewrite <- Zle_Qle. exact D0. }
   assert (DB : (dg t <= B)%Z).
   { apply inject_Z_le_inv. lra. }
-  repeat split; try assumption; try lia.
-  - intro EQ. rewrite EQ in E.
-    assert (M0 : inject_Z (mn t) <= inject_Z 0) by (unfold inject_Z at 2; lra).
+  repeat (split; [first [assumption|lia]|]).
+  intro EQ. rewrite EQ in E. split.
+  - assert (M0 : inject_Z (mn t) <= inject_Z 0) by (unfold inject_Z at 2; lra).
     apply inject_Z_le_inv in M0. lia.
-  - intro EQ. rewrite EQ in E.
-    assert (S00 : sec == 0) by lra.
+  - assert (S00 : sec == 0) by lra.
     assert (K0 : (0 <= s5 t <= 0)%Z).
     { eapply int_between; [exact RL|exact RU| |]; unfold inject_Z; lra. }
     lia.
@@ -208,8 +211,7 @@ Proof. unfold hund. exact (rhu2_spec (inject_Z k5 / p10 5)). Qed.
 
 Lemma hund_range k5 : (0 <= k5 <= 6000000)%Z -> (0 <= hund k5 <= 6000)%Z.
 Proof.
-  intro H. destruct (hund_spec k5) as [L U]. destruct (inj_bounds _ _ _ H) as [A B].
-  unfold inject_Z at 1 3 in A, B.
+  intro H. destruct (hund_spec k5) as [L U]. destruct (inj_bounds_c _ _ _ H) as [A B].
   set (k := inject_Z k5) in *. set (s' := k / 100000) in *.
   assert (Hs : s' * 100000 == k) by (unfold s'; field).
   eapply int_between; [exact L|exact U| |]; unfold inject_Z; lra.
@@ -250,9 +252,9 @@ Proof.
   cbv zeta in *. pose proof (axis_read_unfold (to_dms_axis dd)) as U.
   set (t := to_dms_axis dd) in *.
   pose proof (hund_spec (s5 t)) as [HL HU]. pose proof (hund_range _ K) as HR.
-  destruct (inj_bounds _ _ _ HR) as [H1 H2]. unfold inject_Z at 1 3 in H1, H2.
-  destruct (inj_bounds _ _ _ K) as [K1 K2]. unfold inject_Z at 1 3 in K1, K2.
-  destruct (inj_bounds _ _ _ M) as [M1 M2]. unfold inject_Z at 1 3 in M1, M2.
+  destruct (inj_bounds_c _ _ _ HR) as [H1 H2].
+  destruct (inj_bounds_c _ _ _ K) as [K1 K2].
+  destruct (inj_bounds_c (mn t) 0 59 ltac:(lia)) as [M1 M2].
   destruct (inj_bounds _ _ _ D) as [D1 D2]. unfold inject_Z at 1 in D1.
   set (k := inject_Z (s5 t)) in *. set (s' := k / 100000) in *.
   assert (Hs : s' * 100000 == k) by (unfold s'; field).
@@ -261,8 +263,10 @@ Proof.
   (* magnitude bound *)
   assert (HV : 3600 * inject_Z (dg t) + 60 * inject_Z (mn t) + h' <= 3600 * inject_Z B).
   { destruct (Z.eq_dec (dg t) B) as [EQ|NE].
-    - destruct (TOP EQ) as [M0 K0]. unfold h', h. rewrite K0, hund_0, M0, EQ.
-      unfold inject_Z at 2 3. lra.
+    - destruct (TOP EQ) as [M0 K0].
+      assert (H0 : h == 0) by (unfold h; rewrite K0, hund_0; reflexivity).
+      assert (M00 : inject_Z (mn t) == 0) by (rewrite M0; reflexivity).
+      rewrite EQ. lra.
     - assert (DB' : (dg t + 1 <= B)%Z) by lia.
       rewrite Zle_Qle in DB'. rewrite inject_Z_plus in DB'. change (inject_Z 1) with 1 in DB'.
       lra. }
@@ -270,4 +274,184 @@ Proof.
   destruct (Qabs_cases dd) as [[A EA]|[A EA]];
     destruct (Qle_bool_0_cases dd) as [[A' EB]|[A' EB]]; try lra;
     rewrite EB in U; rewrite EA in E; repeat split; lra.
+Qed.
+
+(* ------------------------------------------------------------------ from_qdms's own rounding *)
+Definition r6_eps : Q := (1 # 2000000) + (1 # 1000000000000000000).
+
+Lemma rhu6_close a (B : Z) : - inject_Z B <= a -> a <= inject_Z B ->
+  (- r6_eps <= rhu a 6 - a /\ rhu a 6 - a <= r6_eps) /\
+  (- inject_Z B <= rhu a 6 /\ rhu a 6 <= inject_Z B).
+Proof.
+  intros A1 A2. destruct (rhu6_spec a) as [L U]. unfold rhu. change (p10 6) with 1000000.
+  assert (KB : (- (B * 1000000) <= rhu_k a 6 <= B * 1000000)%Z).
+  { eapply int_between; [exact L|exact U| |];
+      rewrite ?inject_Z_opp, inject_Z_mult; unfold inject_Z at 2; lra. }
+  destruct (inj_bounds _ _ _ KB) as [K1 K2].
+  rewrite inject_Z_opp, inject_Z_mult in K1. rewrite inject_Z_mult in K2.
+  unfold inject_Z at 2 in K1. unfold inject_Z at 3 in K2.
+  set (k := inject_Z (rhu_k a 6)) in *. set (r := k / 1000000).
+  assert (Hr : r * 1000000 == k) by (unfold r; field).
+  unfold r6_eps. repeat split; lra.
+Qed.
+
+Lemma canonical_abs c : canonical c -> Qabs (clon c) <= inject_Z 180 /\ Qabs (clat c) <= inject_Z 90.
+Proof.
+  intros [[L1 L2] [B1 B2]]. split; apply Qabs_le_of; unfold inject_Z; lra.
+Qed.
+
+Lemma canonical_small c : canonical c ->
+  dms_small 3 (to_dms_axis (clon c)) /\ dms_small 2 (to_dms_axis (clat c)).
+Proof.
+  intro Hc. destruct (canonical_abs c Hc) as [HA HB].
+  destruct (axis_facts _ _ HA) as (s1 & _ & _ & _ & _ & _ & D1 & M1 & K1 & _).
+  destruct (axis_facts _ _ HB) as (s2 & _ & _ & _ & _ & _ & D2 & M2 & K2 & _).
+  cbv zeta in *. pose proof (hund_range _ K1). pose proof (hund_range _ K2).
+  split; unfold dms_small; cbn [Nat.eqb]; repeat split; lia.
+Qed.
+
+(* QDDDMMSSHH is always 10 characters and QDDMMSSHH always 9, in either order *)
+Lemma qdms_lengths c rev : canonical c ->
+  let (a, b) := to_qdms c rev in
+  if rev then String.length a = 9%nat /\ String.length b = 10%nat
+  else String.length a = 10%nat /\ String.length b = 9%nat.
+Proof.
+  intro Hc. destruct (canonical_small c Hc) as [S3 S2].
+  unfold to_qdms, to_dms.
+  pose proof (qdms_axis_length3 EW _ S3). pose proof (qdms_axis_length2 NS _ S2).
+  destruct rev; split; assumption.
+Qed.
+
+(* resolution of the whole round trip on one axis, in degrees *)
+Definition qdms_eps : Q := qdms_str_eps + r6_eps.
+
+(* from_qdms (to_qdms c) for a stored coordinate: defined, never fails, each axis within
+   qdms_eps (longitude modulo the full turn when the text reaches 180 degrees) *)
+Lemma qdms_roundtrip c : canonical c ->
+  exists c', from_qdms (fst (to_qdms c false)) (snd (to_qdms c false)) = Some (Ok c') /\
+    within qdms_eps (clat c') (clat c) /\
+    (within qdms_eps (clon c') (clon c) \/ within qdms_eps (clon c' + 360) (clon c)).
+Proof.
+  intro Hc. destruct (canonical_small c Hc) as [S3 S2].
+  destruct (canonical_abs c Hc) as [HA HB].
+  unfold to_qdms, to_dms. cbn [fst snd]. unfold from_qdms.
+  rewrite (qdms_value_axis3 _ S3), (qdms_value_axis2 _ S2).
+  destruct (axis_read_close _ _ HA) as [[E1 E2] [R1 R2]].
+  destruct (axis_read_close _ _ HB) as [[E3 E4] [R3 R4]]. cbv zeta in *.
+  set (a := axis_read (to_dms_axis (clon c))) in *.
+  set (b := axis_read (to_dms_axis (clat c))) in *.
+  destruct (rhu6_close a 180 R1 R2) as [[F1 F2] [G1 G2]].
+  destruct (rhu6_close b 90 R3 R4) as [[F3 F4] [G3 G4]].
+  unfold inject_Z in G1, G2, G3, G4.
+  unfold mk. rewrite norm_closed_range by lra.
+  eexists. split; [reflexivity|]. cbn [clon clat]. unfold within, qdms_eps.
+  split; [split; lra|].
+  destruct (canon180_cases (rhu a 6) G2) as [[H ->]|[H ->]].
+  - left. split; lra.
+  - right. split; lra.
+Qed.
+
+(* ------------------------------------------------------------------ inputs on the 1e-6 degree grid *)
+(* two multiples of 1e-6 that are within qdms_eps (< 2e-6) of each other differ by at most one step *)
+Lemma grid_snap (k n : Z) x y :
+  x == inject_Z k / 1000000 -> y == inject_Z n / 1000000 ->
+  within qdms_eps x y -> within (1 # 1000000) x y.
+Proof.
+  intros Hx Hy [A B]. unfold qdms_eps, qdms_str_eps, r6_eps in A, B.
+  set (a := inject_Z k / 1000000) in *. set (b := inject_Z n / 1000000) in *.
+  assert (Ha : a * 1000000 == inject_Z k) by (unfold a; field).
+  assert (Hb : b * 1000000 == inject_Z n) by (unfold b; field).
+  assert (H1 : inject_Z k < inject_Z (n + 2)).
+  { rewrite inject_Z_plus. unfold inject_Z at 3. lra. }
+  assert (H2 : inject_Z n < inject_Z (k + 2)).
+  { rewrite inject_Z_plus. unfold inject_Z at 3. lra. }
+  apply inject_Z_lt_inv in H1, H2.
+  assert (H3 : (k <= n + 1)%Z) by lia. assert (H4 : (n <= k + 1)%Z) by lia.
+  rewrite Zle_Qle, inject_Z_plus in H3, H4. unfold inject_Z at 3 in H3. unfold inject_Z at 3 in H4.
+  split; lra.
+Qed.
+
+(* for a stored coordinate with at most 6 decimals the round trip returns the coordinate itself
+   or its neighbour on the 1e-6 degree grid: error at most 1e-6 degrees = 0.0036 arc-seconds *)
+Lemma qdms_roundtrip_6dec c (nlon nlat : Z) : canonical c ->
+  clon c == inject_Z nlon / 1000000 -> clat c == inject_Z nlat / 1000000 ->
+  exists c', from_qdms (fst (to_qdms c false)) (snd (to_qdms c false)) = Some (Ok c') /\
+    within (1 # 1000000) (clat c') (clat c) /\
+    (within (1 # 1000000) (clon c') (clon c) \/ within (1 # 1000000) (clon c' + 360) (clon c)).
+Proof.
+  intros Hc Elon Elat. destruct (canonical_small c Hc) as [S3 S2].
+  destruct (canonical_abs c Hc) as [HA HB].
+  unfold to_qdms, to_dms. cbn [fst snd]. unfold from_qdms.
+  rewrite (qdms_value_axis3 _ S3), (qdms_value_axis2 _ S2).
+  destruct (axis_read_close _ _ HA) as [[E1 E2] [R1 R2]].
+  destruct (axis_read_close _ _ HB) as [[E3 E4] [R3 R4]]. cbv zeta in *.
+  set (a := axis_read (to_dms_axis (clon c))) in *.
+  set (b := axis_read (to_dms_axis (clat c))) in *.
+  destruct (rhu6_close a 180 R1 R2) as [[F1 F2] [G1 G2]].
+  destruct (rhu6_close b 90 R3 R4) as [[F3 F4] [G3 G4]].
+  unfold inject_Z in G1, G2, G3, G4.
+  unfold mk. rewrite norm_closed_range by lra.
+  eexists. split; [reflexivity|]. cbn [clon clat].
+  assert (Ra : rhu a 6 == inject_Z (rhu_k a 6) / 1000000) by reflexivity.
+  assert (Rb : rhu b 6 == inject_Z (rhu_k b 6) / 1000000) by reflexivity.
+  split.
+  - apply (grid_snap _ _ _ _ Rb Elat). unfold within, qdms_eps. split; lra.
+  - destruct (canon180_cases (rhu a 6) G2) as [[H ->]|[H ->]].
+    + left. apply (grid_snap _ _ _ _ Ra Elon). unfold within, qdms_eps. split; lra.
+    + right. assert (Ra' : -180 + 360 == inject_Z (rhu_k a 6) / 1000000) by (rewrite <- Ra, H; reflexivity).
+      apply (grid_snap _ _ _ _ Ra' Elon). unfold within, qdms_eps. split; lra.
+Qed.
+
+(* ------------------------------------------------------------------ witnesses *)
+(* the text alone can be more than 0.005 arc-seconds from the value: seconds 12.004996 are first
+   rounded to 12.00500 and then to 12.01 (double rounding), 0.005004 arc-seconds away *)
+Lemma qdms_text_0005_refuted : exists dd,
+  (1 # 200) / 3600 < axis_read (to_dms_axis dd) - dd.
+Proof. exists (10 + (12004996 # 1000000) / 3600). vm_compute. reflexivity. Qed.
+
+(* before repair D19 (trailing zeros of the hundredths stripped before padding) a coordinate
+   with 12.00 seconds was written as ..0120 and read back as 1.20 seconds: 10.8 arc-seconds off *)
+Lemma qdms_trailing_zero_refuted : exists c c',
+  canonical c /\
+  from_qdms (fst (to_qdms_preD19 c)) (snd (to_qdms_preD19 c)) = Some (Ok c') /\
+  (10 # 1) / 3600 < clon c - clon c'.
+Proof.
+  exists (mkc (36012 # 3600) 20 None None). eexists. split; [|split].
+  - unfold canonical. cbn [clon clat]. repeat split; lra.
+  - vm_compute. reflexivity.
+  - vm_compute. reflexivity.
+Qed.
+
+(* the repaired writer on the same coordinate *)
+Lemma qdms_trailing_zero_fixed :
+  to_qdms (mkc (36012 # 3600) 20 None None) false = ("E010001200", "N20000000")%string.
+Proof. vm_compute. reflexivity. Qed.
+
+(* ------------------------------------------------------------------ projections (finding D20) *)
+(* whatever the third-party transform returns: when its rounded output happens to lie inside
+   the degree ranges it is stored as is (and z holds False, i.e. 0) *)
+Lemma projection_as_is_partial (T : Q -> Q -> Q * Q) c :
+  let x := fst (T (clat c) (clon c)) in
+  let y := snd (T (clat c) (clon c)) in
+  -180 <= rhu y 6 -> rhu y 6 < 180 -> -90 <= rhu x 6 -> rhu x 6 <= 90 ->
+  to_projection T c = Ok (mkc (rhu y 6) (rhu x 6) (Some 0) None).
+Proof.
+  cbv zeta. intros A1 A2 B1 B2. unfold to_projection.
+  destruct (T (clat c) (clon c)) as [x y]. cbn [fst snd] in *.
+  unfold mk. rewrite norm_fix by assumption. reflexivity.
+Qed.
+
+(* "projected values are returned as-is" is false: metres outside the degree ranges are
+   wrapped by the normalising constructor.  Witness: London in EPSG:3857. *)
+Lemma projection_as_is_refuted :
+  exists (T : Q -> Q -> Q * Q) c c',
+    canonical c /\ to_projection T c = Ok c' /\
+    ~ (clon c' == rhu (snd (T (clat c) (clon c))) 6 /\ clat c' == rhu (fst (T (clat c) (clon c))) 6).
+Proof.
+  exists (fun _ _ => ((-17153442975) # 1000000, 6717350953866 # 1000000)).
+  exists (mkc ((-154092) # 1000000) (51539865 # 1000000) None None).
+  eexists. split; [|split].
+  - unfold canonical. cbn [clon clat]. repeat split; lra.
+  - vm_compute. reflexivity.
+  - intros [A _]. vm_compute in A. discriminate A.
 Qed.
